@@ -157,6 +157,21 @@ void run_array(Ctx &c) {
 	c.tag("array");
 }
 
+// arrays of floating-point elements: == is element-wise (+0 == -0, NaN != NaN), as for std::array
+void run_array_fp(Ctx &c) {
+	auto &t = c.t;
+	static const double pool[] = {0.0, -0.0, 1.0, -1.0, __builtin_nan(""), 1e300, 2.5};
+	frg::array<double, 3> fa, fb; std::array<double, 3> sa, sb;
+	for(int i = 0; i < 3; i++) { sa[i] = pool[t.pick(7)]; sb[i] = t.pick(3) ? sa[i] : pool[t.pick(7)]; if(t.pick(4) == 0 && sa[i] == 0.0) sb[i] = -sa[i]; fa[i] = sa[i]; fb[i] = sb[i]; }
+	c.op("array<double,3> a=(%g,%g,%g) b=(%g,%g,%g)", sa[0], sa[1], sa[2], sb[0], sb[1], sb[2]);
+	VCHECK(c, "C18", (fa == fb) == (sa == sb) && (fa != fb) == (sa != sb), "array<double,3>: a == b is %d, std::array gives %d", (int)(fa == fb), (int)(sa == sb));
+	VCHECK(c, "C18", (fa == fa) == (sa == sa), "array<double,3>: a == a is %d, std::array gives %d", (int)(fa == fa), (int)(sa == sa));
+	frg::array<float, 2> ga{(float)sa[0], (float)sa[1]}, gb{(float)sb[0], (float)sb[1]}; std::array<float, 2> ha{(float)sa[0], (float)sa[1]}, hb{(float)sb[0], (float)sb[1]};
+	VCHECK(c, "C18", (ga == gb) == (ha == hb), "array<float,2>: == differs from std::array");
+	c.nontrivial = true;
+	c.tag("array-floating-point");
+}
+
 // ------------------------------------------------------------------------------------------
 struct RefPcg {   // the published pcg32 algorithm (pcg-c-basic), written independently
 	uint64_t state, inc;
@@ -248,7 +263,7 @@ void run_sort(Ctx &c) {
 void verif_case(Ctx &c) {
 	unsigned kind = c.t.pick(8);
 	if(kind <= 4) dispatch_bitset(c, c.t.pick(NBITN), BitNs{});
-	else if(kind == 5) { switch(c.t.pick(4)) { case 0: run_array<1>(c); break; case 1: run_array<2>(c); break; case 2: run_array<3>(c); break; default: run_array<8>(c); break; } }
+	else if(kind == 5) { switch(c.t.pick(5)) { case 4: run_array_fp(c); break; case 0: run_array<1>(c); break; case 1: run_array<2>(c); break; case 2: run_array<3>(c); break; default: run_array<8>(c); break; } }
 	else if(kind == 6) run_prng(c);
 	else run_sort(c);
 }
